@@ -2,8 +2,8 @@ package checks
 
 import (
 	"fmt"
-	"time"
 	"strings"
+	"time"
 
 	"github.com/arr-ai/arrai/rel"
 
